@@ -245,3 +245,70 @@ pub fn panels_for(ctx: &crate::Ctx) -> Vec<&'static Spec> {
         })
         .collect()
 }
+
+// ---------------------------------------------------------------------------------------------
+// log helpers
+// ---------------------------------------------------------------------------------------------
+use crate::hal::{Ev, Pin};
+
+/// (op index, first event index, one-past-last event index) for every OpBegin..OpEnd bracket
+pub fn op_segments(log: &[Ev]) -> Vec<(u32, usize, usize)> {
+    let mut out = Vec::new();
+    let mut start: Option<(u32, usize)> = None;
+    for (i, e) in log.iter().enumerate() {
+        match e {
+            Ev::OpBegin { idx } => start = Some((*idx, i + 1)),
+            Ev::OpEnd { idx } => {
+                if let Some((s, b)) = start.take() {
+                    if s == *idx {
+                        out.push((s, b, i));
+                    }
+                }
+            }
+            _ => {}
+        }
+    }
+    out
+}
+
+pub fn hex(b: &[u8]) -> String {
+    b.iter().map(|x| format!("{:02X}", x)).collect::<Vec<_>>().join(" ")
+}
+
+/// Minimise a failing history (list of symbol indices): greedily drop symbols while `fails`
+/// still returns the same signature. Used so that a failure signature names the smallest set of
+/// operations needed to provoke it rather than the arbitrary history in which it was first seen.
+pub fn minimize_history(h: &[usize], sig: &str, fails: &dyn Fn(&[usize]) -> Option<String>) -> Vec<usize> {
+    let mut cur = h.to_vec();
+    let mut changed = true;
+    while changed && cur.len() > 0 {
+        changed = false;
+        for i in 0..cur.len() {
+            let mut t = cur.clone();
+            t.remove(i);
+            if let Some(s) = fails(&t) {
+                if s == sig {
+                    cur = t;
+                    changed = true;
+                    break;
+                }
+            }
+        }
+    }
+    cur
+}
+
+pub fn sym_kinds(syms: &[Sym], h: &[usize]) -> String {
+    h.iter()
+        .map(|i| syms[*i].iter().map(|o| sym_tag(o)).collect::<Vec<_>>().join("+"))
+        .collect::<Vec<_>>()
+        .join(">")
+}
+
+/// coarse, stable tag of an op for signatures: kind + argument class
+pub fn sym_tag(o: &Op) -> String {
+    match o.k {
+        K::SetBg | K::SetLut | K::SetRefresh | K::SetBorder => format!("{}[{}]", o.k.name(), o.arg),
+        _ => o.k.name().to_string(),
+    }
+}
